@@ -848,6 +848,18 @@ rci_t _mzd_top_echelonize_m4ri(mzd_t *A, int k, rci_t r, rci_t c, rci_t max_r) {
   rci_t const ncols = A->ncols;
   int kbar          = 0;
 
+#if __M4RI_HAVE_SSE2
+  if (__M4RI_ALIGNMENT(mzd_row(A, 0), 16) == 8) {
+    /* the tables below are 16-byte aligned, the row combination kernels need the
+       rows of A to have the same alignment: work on an aligned copy */
+    mzd_t *Abar = mzd_copy(NULL, A);
+    rci_t rbar  = _mzd_top_echelonize_m4ri(Abar, k, r, c, max_r);
+    mzd_copy(A, Abar);
+    mzd_free(Abar);
+    return rbar;
+  }
+#endif
+
   if (k == 0) {
     k = m4ri_opt_k(max_r, A->ncols, 0);
     if (k >= 7) k = 7;
